@@ -33,6 +33,7 @@ def run(ctx: Context) -> None:
     v = CalibrateView(ctx.prog)
     ctx.rule(c02.r5_labels, v)
     ctx.rule(r3_persisted)
+    ctx.rule(r4_no_stale_cache)
     ctx.rule(r4_channel)
 
 
@@ -108,6 +109,11 @@ def r1_monotone(ctx: Context) -> None:
 
 def r1_writers(ctx: Context) -> None:
     prog = ctx.prog
+    from ..util import set_iteration_sites
+    cal0 = prog.find_class("Calibrator")
+    for f, node, what in set_iteration_sites(prog, [m for m in prog.methods_of(cal0)]):
+        ctx.fail("R1.first-seen-order", f"Calibrator.{f.name}:iterates-set:{what[:40]}", f"ids are handed out while iterating the set `{what}`: numbering follows hash order, not first-seen order, and differs "
+                 "between processes (the plots rebuild the table in their own process)", f, node)
     # no deletion / rebinding outside __init__
     cal = prog.find_class("Calibrator")
     for f in prog.methods_of(cal):
@@ -232,6 +238,14 @@ def r4_channel(ctx: Context) -> None:
     from ..poly import single_assignment_env
     env = single_assignment_env(reader.node)
     loads = [c for c in calls_in(reader.node) if (dotted(c.func) or "") == "pickle.load"]
+    if not loads:
+        # the unpickling may have moved into a helper of the same module
+        for c in calls_in(reader.node, scope_only=False):
+            for t in prog.resolve_call(reader, c):
+                if isinstance(t, FuncInfo) and t.module is reader.module and [x for x in calls_in(t.node) if (dotted(x.func) or "") == "pickle.load"]:
+                    reader = ctx.analysed(t)
+                    env = single_assignment_env(reader.node)
+                    loads = [x for x in calls_in(t.node) if (dotted(x.func) or "") == "pickle.load"]
     ctx.floor("R4", "pickle.load in the plotting reader", len(loads), 1)
     lc = loads[0]
     ef = _enclosing_file(lc, lc.args[0].id, env) if lc.args and isinstance(lc.args[0], ast.Name) else None
@@ -281,3 +295,23 @@ def r4_channel(ctx: Context) -> None:
     inv_ok = any(isinstance(x, ast.DictComp) and len(x.generators) == 1 and isinstance(x.generators[0].target, ast.Tuple) and len(x.generators[0].target.elts) == 2
                  and src(x.key) == src(x.generators[0].target.elts[1]) and src(x.value) == src(x.generators[0].target.elts[0]) and src(x.generators[0].iter).endswith(".items()") for x in ast.walk(f.node))
     ctx.check(inv_ok, "R4.inverse", "plot_results._get_samplers_names:inverse", "names are looked up through the inverted table {id: name}", "the id->name inversion changed", f, f.node)
+
+
+def r4_no_stale_cache(ctx: Context) -> None:
+    prog = ctx.prog
+    reader = ctx.func("black_it.plot.plot_results:_get_samplers_id_table")
+    for f2 in prog.all_functions(include_plot=True):
+        if f2.module.name != reader.module.name:
+            continue
+        for d in f2.node.decorator_list:
+            nm = (dotted(d) or (dotted(d.func) if isinstance(d, ast.Call) else "") or "").split(".")[-1]
+            if nm in ("lru_cache", "cache", "memoize") and f2.name not in ("_get_samplers_id_table", "_get_samplers_names"):
+                ctx.fail("R4.no-stale-cache", f"plot_results.{f2.name}:decorator:{nm}",
+                         f"@{nm} on plot_results.{f2.name}: what is read from a checkpoint folder is cached per folder name and goes stale when the calibrator rewrites that folder", f2, d)
+    consts = prog.module_consts.get(reader.module.name, {})
+    for f2 in prog.all_functions(include_plot=True):
+        if f2.module.name != reader.module.name:
+            continue
+        for x in walk_scope(f2.node):
+            if isinstance(x, ast.Assign) and isinstance(x.targets[0], ast.Subscript) and isinstance(x.targets[0].value, ast.Name) and x.targets[0].value.id in consts:
+                ctx.fail("R4.no-stale-cache", f"plot_results.{f2.name}:module-cache:{x.targets[0].value.id}", f"`{src(x)[:70]}` caches checkpoint content in module-level `{x.targets[0].value.id}`", f2, x)
